@@ -2792,3 +2792,93 @@ def run_fragfirst(prog, ctx=None):
         res.ob("%s:no exit on the first fragment alone" % f.qn, bad is None, f, (bad[1].get("l") if bad else f.line) or f.line,
                "" if bad is None else "an exit of %s is decided by `%s`, the length of the first fragment only: the fragments behind an empty first one are never looked at" % (f.qn, norm(show(bad[1], f))))
     return res
+
+
+def run_roomcode(prog, ctx=None):
+    """ROOMCODE (contradiction inside one function): the local whose zero test leads to `return MissingBuffer` somewhere in a
+    function is its count of room for output; every other exit taken on that same zero test reports MissingBuffer as well.
+    The COBS decoder leaves its loops on `!proc` twice: once with MissingBuffer, which makes the caller provide room, once
+    with 0, which says "incomplete, feed me more" although the byte at hand was read and dropped - the caller retries for
+    ever and a well-formed frame is neither delivered nor refused."""
+    res = Result("ROOMCODE")
+    files = set(ctx.get("files", [])) if ctx else None
+    for f in funcs_of(prog, files):
+        groups = {}
+        for bid, blk in sorted(f.blocks.items()):
+            t = blk.term
+            if not (t and t.get("cond") is not None and len(blk.succ) == 2 and blk.succ[0] is not None and t.get("cls") == "IfStmt"):
+                continue
+            c = strip(t["cond"], all_casts=True)
+            if not (c.get("k") == "un" and c.get("op") == "!"):
+                continue
+            v = strip(c["e"], all_casts=True)
+            if not (v.get("k") == "ref" and v["d"].get("dk") in ("local", "param") and "id" in v["d"]):
+                continue
+            tb = f.blocks[blk.succ[0]]
+            rets = [e for e in tb.el if e.get("k") == "ret" and e.get("e") is not None and cval(e["e"]) is not None]
+            if not rets:
+                continue
+            groups.setdefault((v["d"]["id"], v["d"].get("n")), []).append((int(cval(rets[0]["e"])), rets[0]))
+        for (vid, name), exits in sorted(groups.items(), key=lambda kv: str(kv[0][1])):
+            if not any(v == -0x11 for v, _ in exits):
+                continue
+            for k, (v, e) in enumerate(sorted(exits, key=lambda x: x[1].get("l") or 0)):
+                ok = v == -0x11
+                res.ob("%s:exit %d on !%s reports the missing room" % (f.qn, k, name), ok, f, e.get("l") or f.line,
+                       "" if ok else "%s answers %d where `!%s` holds, and MissingBuffer for the same condition elsewhere: without room the call cannot make progress, an answer that asks for more input makes the caller retry for ever" % (f.qn, v, name))
+    return res
+
+
+def run_alignidle(prog, ctx=None):
+    """ALIGNIDLE: the COBS decoders move the start of the message forward to an aligned address (`done += post; proc -= post`)
+    while the message is still empty.  That gives away room for decoded bytes, which is harmless between frames only: the
+    statement that lowers the room counter inside the branch taken for an empty message is guarded by a test that no block is
+    open (`!code`) as well.  On re-entry with an open block and no byte decoded yet the padding would eat the slot of the
+    consumed code byte, the only room for the first data byte."""
+    res = Result("ALIGNIDLE")
+    files = set(ctx.get("files", [])) if ctx else None
+    n = 0
+    for f in funcs_of(prog, files):
+        # the room counter: the local whose zero test leads to `return MissingBuffer`
+        ec = prog.enum_consts
+        mb = ec.get("MPT_ERROR(MissingBuffer)", ec.get("MissingBuffer", -0x11))
+        room = set()
+        for bid, blk in f.blocks.items():
+            t = blk.term
+            if not (t and t.get("cond") is not None and len(blk.succ) == 2 and blk.succ[0] is not None):
+                continue
+            c = strip(t["cond"], all_casts=True)
+            if c.get("k") == "un" and c.get("op") == "!":
+                v = strip(c["e"], all_casts=True)
+                if v.get("k") == "ref" and "id" in v["d"]:
+                    for e in f.blocks[blk.succ[0]].el:
+                        if e.get("k") == "ret" and e.get("e") is not None and cval(e["e"]) == -0x11:
+                            room.add(v["d"]["id"])
+        if not room:
+            continue
+        dom = f.dominators()
+        for b, i, e in f.elements():
+            for m in walk_own(e):
+                if not (m.get("k") == "bin" and m.get("op") == "-="):
+                    continue
+                l = strip(m["a"], lvalue_to_rvalue=False)
+                if not (l.get("k") == "ref" and l["d"].get("id") in room):
+                    continue
+                if cval(m["b"]) is not None:
+                    continue
+                # guarded by an empty-message test?  then a no-open-block test has to guard it too
+                texts = []
+                for pb in dom[b.id]:
+                    pblk = f.blocks[pb]
+                    if pblk.term and pblk.term.get("cond") is not None and pb != b.id:
+                        texts.append(norm(show(pblk.term["cond"], f)))
+                empty = [t for t in texts if "!mlen" in t.replace(" ", "") or "mlen==0" in t.replace(" ", "")]
+                if not empty:
+                    continue
+                n += 1
+                idle = any("!code" in t.replace(" ", "") or "code==0" in t.replace(" ", "") for t in texts)
+                res.ob("%s:%s between frames only" % (f.qn, norm(show(m, f))), idle, f, m.get("l") or f.line,
+                       "" if idle else "`%s` gives away room for decoded bytes in the branch for an empty message without a test that no block is open (`!code`): on re-entry inside a frame the slot of the consumed code byte is lost" % norm(show(m, f)))
+    if n < 1:
+        raise Broken("ALIGNIDLE: no alignment step found in the decoders")
+    return res
